@@ -6,6 +6,7 @@ import (
 	"bytes"
 	"encoding/json"
 	"fmt"
+	"os"
 	"reflect"
 	"runtime"
 	"strings"
@@ -205,7 +206,13 @@ func runCase(t fataler, c *dbCase) map[string]int {
 func (r *runner) quiet(what string) int {
 	parked, ok, dump := waitQuiet()
 	if !ok {
-		r.failf("the database API did not come to rest within %s %s: handler goroutines are still running\n%s", waitBound, what, dump)
+		// Handler goroutines are stuck. Whatever they hold stays locked, so no
+		// further case can be executed in this process: report and end it. The
+		// driver turns the death into a violation whose replay is the journal.
+		fmt.Fprintf(os.Stderr, "WEDGED: the database API did not come to rest within %s %s: handler goroutines are still running\n--- case ---\n%s\n--- all replies ---\n%s\n--- goroutines ---\n%s\n",
+			waitBound, what, r.c.render(), renderReplies(r.conn.snapshot()), dump)
+		stats.Flush(1)
+		os.Exit(1)
 	}
 	return parked
 }
@@ -712,16 +719,18 @@ func (r *runner) checkTranscript(msgs []msg, replies []reply, classes map[string
 					}
 				}
 			}
-			for k, n := range o.notifyKeys {
+			// Nothing invented: not more notifications for a key than successful changes of
+			// it. A back end that keeps the record object itself (hashmap) lets a
+			// subscriber that lags behind see the latest state for an earlier change as
+			// well, so a del may stand for an update that a delete followed.
+			for k := range o.notifyKeys {
 				typ, key, _ := strings.Cut(k, " ")
-				max := writes[key]
-				if typ == "del" {
-					max = deletes[key]
-				} else {
-					n = o.notifyKeys["upd "+key] + o.notifyKeys["new "+key]
+				n := o.notifyKeys["upd "+key] + o.notifyKeys["new "+key] + o.notifyKeys["del "+key]
+				if n > writes[key]+deletes[key] {
+					bad("%d notifications for %q but only %d changes of it succeeded", n, key, writes[key]+deletes[key])
 				}
-				if n > max {
-					bad("%d %s notifications for %q but only %d such changes succeeded", n, typ, key, max)
+				if typ == "del" && deletes[key] == 0 {
+					bad("del notification for %q although no delete of it succeeded", key)
 				}
 			}
 			if phase != "ended" {
